@@ -23,6 +23,71 @@ func structField(n *types.Named, name string) *types.Var {
 	return nil
 }
 
+// mutexField finds the mutex of a struct: the field called `preferred` if it
+// exists and is a mutex, otherwise the only field of type sync.Mutex /
+// sync.RWMutex (or pointer to one). Renaming the field does not matter then.
+func mutexField(n *types.Named, preferred string) *types.Var {
+	if n == nil {
+		return nil
+	}
+	st, ok := n.Underlying().(*types.Struct)
+	if !ok {
+		return nil
+	}
+	isMutex := func(t types.Type) bool {
+		if p, ok := t.(*types.Pointer); ok {
+			t = p.Elem()
+		}
+		nt, ok := t.(*types.Named)
+		return ok && nt.Obj().Pkg() != nil && nt.Obj().Pkg().Path() == "sync" && (nt.Obj().Name() == "Mutex" || nt.Obj().Name() == "RWMutex")
+	}
+	var found []*types.Var
+	for i := 0; i < st.NumFields(); i++ {
+		f := st.Field(i)
+		if isMutex(f.Type()) {
+			if f.Name() == preferred {
+				return f
+			}
+			found = append(found, f)
+		}
+	}
+	if len(found) == 1 {
+		return found[0]
+	}
+	return nil
+}
+
+// fieldsOfKind: fields of the struct whose underlying type satisfies pred.
+func fieldsWhere(n *types.Named, pred func(f *types.Var) bool) []*types.Var {
+	var out []*types.Var
+	if st, ok := n.Underlying().(*types.Struct); ok {
+		for i := 0; i < st.NumFields(); i++ {
+			if pred(st.Field(i)) {
+				out = append(out, st.Field(i))
+			}
+		}
+	}
+	return out
+}
+
+// isInterfaceOrExported: entry points are exported methods and methods that
+// implement one of the given interfaces; other methods are helpers whose
+// lock preconditions are checked at their call sites.
+func entryPolicy(ifaces ...*types.Named) func(fd *ast.FuncDecl) bool {
+	names := map[string]bool{}
+	for _, n := range ifaces {
+		if n == nil {
+			continue
+		}
+		if it, ok := n.Underlying().(*types.Interface); ok {
+			for i := 0; i < it.NumMethods(); i++ {
+				names[it.Method(i).Name()] = true
+			}
+		}
+	}
+	return func(fd *ast.FuncDecl) bool { return fd.Name.IsExported() || names[fd.Name.Name] }
+}
+
 // localStoreLockSpec builds the table of R01.2/R01.3/R01.4 for one of the two
 // local stores.
 func localStoreLockSpec(c *Ctx, typ string) *LockSpec {
